@@ -28,7 +28,8 @@ RULE = ("generated class worlds of C07 with class-level and instance-level ignor
         "datetime.date, complex, function; None entries; subclasses of handled classes) x per-call ignore lists x spellings of the "
         "names (config default, config custom, explicit argument, both, empty string) x object graphs of depth <= 4 whose fields also "
         "hold beans, enum members, Decimals, library objects and functions directly. Non-trivial: a handler, an ignore list or a "
-        "non-default name is in play, or a field holds an unsupported value. Distinct by canonical hash of the case.")
+        "non-default name is in play, or a field holds an unsupported value. Distinct by canonical hash of the case."
+        ' Added after the seeded rounds: configurations derived with Config.copy(); handlers registered on a Config that has already been used for a dump (30% of the cases).')
 TRUSTED = ["modelled, not verified: attribute protocol, isinstance(value, handler types) as class-table ancestry, set.difference_update / "
            "`in` on ignore lists as Python == on names and values",
            "handlers used in correspondence runs: constant, wrap-the-object, non-JSON shape, raising"]
